@@ -21,6 +21,7 @@ import (
 
 	"github.com/EliCDavis/polyform/formats/ply"
 	"github.com/EliCDavis/polyform/modeling"
+	"github.com/EliCDavis/polyform/nodes"
 	"github.com/EliCDavis/vector/vector2"
 	"github.com/EliCDavis/vector/vector3"
 	"github.com/EliCDavis/vector/vector4"
@@ -129,7 +130,47 @@ const (
 	plyVcF32                    // float32-representable values with many significant digits and small magnitudes
 	//                             (random float32 bit patterns, exponents −30..+10): all three encodings; "up to the
 	//                             precision of the stored type" is then bit-exact equality
+	plyVcHuge //                   float32-representable values of huge magnitude (2^31 … MaxFloat32: beyond int32 / int64,
+	//                             whole numbers with 10 … 39 digits) mixed with plyVcF32 values; float / double writers only
 )
+
+// a float32-representable value of huge magnitude
+func (c *Ctx) plyHuge() float64 {
+	var v float64
+	switch c.Rng.Intn(12) {
+	case 0:
+		v = math.Ldexp(1, 63) // 2^63: the first whole number beyond int64
+	case 1:
+		v = float64(float32(1e19))
+	case 2:
+		v = float64(float32(3e20))
+	case 3:
+		v = math.Ldexp(1, 64)
+	case 4:
+		v = float64(float32(2.5e30))
+	case 5:
+		v = math.MaxFloat32
+	case 6:
+		v = math.Ldexp(1, 100)
+	case 7:
+		v = float64(math.Float32frombits(0x5effffff)) // the largest float32 below 2^63
+	case 8:
+		v = math.Ldexp(1, 31) // beyond int32
+	case 9:
+		v = float64(float32(4e9))
+	default:
+		e := 31 + c.Rng.Intn(97) // 2^31 … 2^127
+		mant := uint32(c.Rng.Intn(1 << 23))
+		if c.Rng.Intn(2) == 0 {
+			mant &= 0x7f0000
+		}
+		v = float64(math.Float32frombits(uint32(127+e)<<23 | mant))
+	}
+	if c.Rng.Intn(2) == 0 {
+		v = -v
+	}
+	return v
+}
 
 // a float32-representable value: special small / many-digit values, else a random bit pattern
 func (c *Ctx) plyF32(unit bool) float64 {
@@ -162,6 +203,12 @@ func (c *Ctx) plyF32(unit bool) float64 {
 }
 
 func (c *Ctx) plyVal(vc plyValueClass, unit bool) float64 {
+	if vc == plyVcHuge {
+		if !unit && c.Rng.Intn(2) == 0 {
+			return c.plyHuge()
+		}
+		return c.plyF32(unit)
+	}
 	if vc == plyVcF32 {
 		return c.plyF32(unit)
 	}
@@ -360,6 +407,45 @@ func (c *Ctx) plyMesh(vc plyValueClass) plyGenMesh {
 			d := c.plyV3s(nv, vc, false)
 			sets = append(sets, func(m modeling.Mesh) modeling.Mesh { return m.SetFloat3Attribute(modeling.PositionAttribute, d) })
 		}
+		if c.Rng.Intn(6) == 0 {
+			// the SAME attribute name in another arity (the mesh keeps one map per arity): Float1 Scale next to Float3 Scale,
+			// Float4 Color next to Float3 Color, a Float4 / Float3 / Float2 named like a user scalar, …  Each is its own
+			// attribute and is written (configured writer for one, name / name_k properties for the other).
+			names := []string{modeling.ScaleAttribute, modeling.ColorAttribute, modeling.PositionAttribute, modeling.NormalAttribute,
+				modeling.OpacityAttribute, modeling.RotationAttribute, modeling.FDCAttribute}
+			names = append(names, g.userV1...)
+			name := names[c.Rng.Intn(len(names))]
+			unit := name == modeling.ColorAttribute
+			for _, dim := range c.Rng.Perm(4)[:1+c.Rng.Intn(2)] {
+				switch dim + 1 {
+				case 1:
+					isUser := false
+					for _, u := range g.userV1 {
+						isUser = isUser || u == name
+					}
+					if isUser {
+						continue // already there as a scalar (and its values must stay the generated ones)
+					}
+					d := c.plyV1s(nv, vc, unit)
+					if name != modeling.OpacityAttribute {
+						// (Float1 Opacity already has its standard writer candidate; two configured writers for ONE attribute
+						// land on one key when read back — outside the round-trip predicate)
+						g.userV1 = append(g.userV1, name)
+					}
+					sets = append(sets, func(m modeling.Mesh) modeling.Mesh { return m.SetFloat1Attribute(name, d) })
+				case 2:
+					d := c.plyV2s(nv, vc, unit)
+					sets = append(sets, func(m modeling.Mesh) modeling.Mesh { return m.SetFloat2Attribute(name, d) })
+				case 3:
+					d := c.plyV3s(nv, vc, unit)
+					sets = append(sets, func(m modeling.Mesh) modeling.Mesh { return m.SetFloat3Attribute(name, d) })
+				default:
+					d := c.plyV4s(nv, vc, unit)
+					sets = append(sets, func(m modeling.Mesh) modeling.Mesh { return m.SetFloat4Attribute(name, d) })
+				}
+			}
+			c.Note("mesh:same-name-other-arity")
+		}
 	}
 	var indices []int
 	var topo modeling.Topology
@@ -491,6 +577,10 @@ func (c *Ctx) plyMeshLarge(nv int, tri bool, nf int) plyGenMesh {
 
 var plyScalarTypes = []ply.ScalarPropertyType{ply.Float, ply.Float, ply.Double, ply.UChar, ply.Int}
 
+// custom configurations with float / double writers only (huge values: float → int conversions of values that do not fit
+// are implementation-defined in Go, so integer-typed writers are not combined with them)
+var plyFloatTypesOnly bool
+
 // custom writer configuration: subset / permutation of the standard writers, alternative recognised names,
 // other scalar types, writers for user attributes under another property name
 func (c *Ctx) plyCfg(g plyGenMesh) plyWCfg {
@@ -502,6 +592,9 @@ func (c *Ctx) plyCfg(g plyGenMesh) plyWCfg {
 	ty := func(vec bool) ply.ScalarPropertyType {
 		for {
 			t := plyScalarTypes[c.Rng.Intn(len(plyScalarTypes))]
+			if plyFloatTypesOnly && (t == ply.UChar || t == ply.Int) {
+				continue
+			}
 			if !vec && t == ply.UChar {
 				continue // 8-bit scalar properties: known finding, exercised by its own witness
 			}
@@ -572,6 +665,27 @@ func plyAlphaCaptured(g plyGenMesh, w plyWCfg) bool {
 	for _, p := range w.props {
 		if len(p.names) == 3 && p.names[0] == want && scalarTy != "" && p.ty == scalarTy {
 			return true
+		}
+	}
+	return false
+}
+
+// user scalar "alpha" / "a" / "diffuse_alpha" written by a custom scalar writer that stands BEFORE a colour 3-writer with
+// the matching names and ANOTHER scalar type: the group reader takes the group's type from the first member in header
+// order (here the scalar), finds the other three "mixed" and claims nothing — the colour comes back as three scalars
+// (root cause of the known finding C08 mixed-type-group, reached through the library's own writer)
+func plyAlphaBreaksGroup(g plyGenMesh, w plyWCfg) bool {
+	want := map[string]string{"alpha": "red", "a": "r", "diffuse_alpha": "diffuse_red"}[g.specialName]
+	if want == "" || w.isDefault {
+		return false
+	}
+	for i, p := range w.props {
+		if len(p.names) == 1 && p.attr == g.specialName && p.names[0] == g.specialName {
+			for _, q := range w.props[i+1:] {
+				if len(q.names) == 3 && q.names[0] == want && q.ty != p.ty {
+					return true
+				}
+			}
 		}
 	}
 	return false
@@ -663,6 +777,10 @@ func (c *Ctx) plyCaseEP(g plyGenMesh, w plyWCfg, formats []ply.Format, agreeOp s
 			c.Note("observation:w-name-captured-by-group")
 			continue
 		}
+		if plyAlphaBreaksGroup(g, w) {
+			c.Note("observation:w-name-before-group-other-type")
+			continue
+		}
 		// a file we wrote that does not load makes the oracle false ("err"/"panic" is not a mesh)
 		c.Emit("c04.holds.roundtrip", w.tok(f)+" "+plyMeshTok(m)+" "+rs, "true")
 		if back == nil {
@@ -673,6 +791,42 @@ func (c *Ctx) plyCaseEP(g plyGenMesh, w plyWCfg, formats []ply.Format, agreeOp s
 	if len(backs) == 3 {
 		c.Emit(agreeOp, strings.Join(backs, " "), "true")
 	}
+}
+
+// the writer configuration ply.SplatPly stands for
+func plySplatCfg() plyWCfg {
+	w := plyWCfg{props: []plyWProp{
+		{modeling.PositionAttribute, []string{"x", "y", "z"}, ply.Float},
+		{modeling.NormalAttribute, []string{"nx", "ny", "nz"}, ply.Float},
+		{modeling.FDCAttribute, []string{"f_dc_0", "f_dc_1", "f_dc_2"}, ply.Float},
+		{modeling.ScaleAttribute, []string{"scale_0", "scale_1", "scale_2"}, ply.Float},
+		{modeling.RotationAttribute, []string{"rot_0", "rot_1", "rot_2", "rot_3"}, ply.Float},
+		{modeling.OpacityAttribute, []string{"opacity"}, ply.Float},
+	}}
+	for i := 0; i < 45; i++ {
+		n := fmt.Sprintf("f_rest_%d", i)
+		w.props = append(w.props, plyWProp{n, []string{n}, ply.Float})
+	}
+	return w
+}
+
+func (c *Ctx) plySplatNodeCase(m modeling.Mesh) {
+	if c.Rng.Intn(2) == 0 && m.AttributeLength() > 0 {
+		d := make([]float64, m.AttributeLength())
+		for i := range d {
+			d[i] = float64(c.Rng.Intn(33)-16) / 8
+		}
+		m = m.SetFloat1Attribute(fmt.Sprintf("f_rest_%d", c.Rng.Intn(45)), d)
+	}
+	var data []byte
+	ans := Guard(func() string {
+		buf := &bytes.Buffer{}
+		err := ply.NewPlyNode(nodes.Value(m).Out()).Value().Write(buf)
+		data = buf.Bytes()
+		return plyResBytes(data, err)
+	})
+	c.Emit("c04.write", plySplatCfg().tok(ply.BinaryLittleEndian)+" "+plyMeshTok(m), ans)
+	c.Note("entry:NewPlyNode")
 }
 
 func runC04(c *Ctx) {
@@ -702,14 +856,16 @@ func runC04(c *Ctx) {
 		tri bool
 		nf  int
 	}
-	larges := []large{{4097, false, 0}, {5000, true, 2200}}
+	// … and that ARE exact multiples of them (a block that is exactly full)
+	larges := []large{{4096, false, 0}, {8192, true, 2200}, {4097, false, 0}, {5000, true, 2200}}
 	if c.Tier == "thorough" {
 		larges = append(larges, large{4095, false, 0}, large{4096, true, 1400}, large{8193, false, 0}, large{10001, true, 3500},
-			large{4100, true, 4100}, large{30000, false, 0})
+			large{4100, true, 4100}, large{30000, false, 0}, large{8191, true, 1000}, large{8192, false, 0}, large{12288, true, 4096},
+			large{65535, false, 0}, large{65536, false, 0}, large{65536, true, 3000}, large{65537, false, 0})
 	}
 	for i, l := range larges {
 		g := c.plyMeshLarge(l.nv, l.tri, l.nf)
-		if i%2 == 0 || c.Tier == "thorough" {
+		if i%2 == 0 || i < 2 || c.Tier == "thorough" {
 			c.plyCaseEP(g, plyWCfg{isDefault: true}, plyFormats, "c04.holds.encodings_agree", false)
 		}
 		if i%2 == 1 || c.Tier == "thorough" {
@@ -787,6 +943,21 @@ func runC04(c *Ctx) {
 			}
 			plySkipAsciiWriteLine = false
 			c.Note("values:float32-bit-patterns")
+		}
+		if k%4 == 1 { // huge magnitudes (float32-representable), float / double writers, ALL THREE encodings
+			g := c.plyMesh(plyVcHuge)
+			plySkipAsciiWriteLine = true
+			plyFloatTypesOnly = true
+			c.plyCase(g, plyWCfg{isDefault: true}, plyFormats, "c04.holds.encodings_agree")
+			c.plyCase(g, c.plyCfg(g), plyFormats, "c04.holds.encodings_agree")
+			plyFloatTypesOnly = false
+			plySkipAsciiWriteLine = false
+			c.Note("values:huge")
+		}
+		if k%8 == 3 {
+			// the graph node wrapper of the writer (formats/ply/types.go: NewPlyNode → SplatPly.Write) stores exactly what
+			// the MeshWriter it stands for stores: little-endian, the splat property writers, nothing unspecified
+			c.plySplatNodeCase(c.plyMesh(plyVcNice).mesh)
 		}
 		if k%3 == 0 { // arbitrary doubles: binary encodings only (ASCII printing of arbitrary doubles is not modelled)
 			g := c.plyMesh(plyVcAny)
